@@ -126,9 +126,12 @@ def run_case(item):
     tid, case = item
     obs, result, events, tables = record.execute(case)
     rec = record.abstract(case, obs, result, tables, tid)
-    if events and obs['raised'] == '' and (workertrace.eligible(case) or workertrace.eligible_ed(case)):
+    if events and obs['raised'] == '' and (workertrace.eligible(case) or workertrace.eligible_ed(case)
+                                          or workertrace.eligible_oc(case)):
         try:
-            if workertrace.eligible_ed(case):
+            if workertrace.eligible_oc(case):
+                rec['_worker'] = workertrace.build_oc(case, events, tables, tid)
+            elif workertrace.eligible_ed(case):
                 w = workertrace.build_ed(case, events, tables, tid)
                 rec['_worker'] = None if w is None else (('ED',) + w[0], w[1])
             else:
@@ -187,11 +190,13 @@ def validate_workers(workers, name):
         meas, mode, ae = key
         cfg_path = os.path.join(config.workdir('traces'), '%d-%s-%s-%s-%s.cfg' % (os.getpid(), name, meas, mode, ae))
         with open(cfg_path, 'w') as fh:
-            if meas == 'ED':
+            if meas == 'OC':
+                fh.write(workertrace.CFG_OC % (mode, 'TRUE' if ae else 'FALSE'))
+            elif meas == 'ED':
                 fh.write(workertrace.CFG_ED % (mode, 'TRUE' if ae else 'FALSE'))
             else:
                 fh.write(workertrace.CFG % (meas, 'TRUE' if ae else 'FALSE', mode))
-        verd, st = runner.validate(recs, 'TraceWorkersED' if meas == 'ED' else 'TraceWorkers',
+        verd, st = runner.validate(recs, {'ED': 'TraceWorkersED', 'OC': 'TraceWorkersOC'}.get(meas, 'TraceWorkers'),
                                    '%s-%s-%s-%s' % (name, meas, mode, ae), batch=1200, cfg_path=cfg_path)
         states += st['states']
         validated += len(recs)
